@@ -37,6 +37,9 @@ const (
 	Scale     = 100  // discounts are n/100
 	FScale    = 1000 // tax and slash fraction are n/1000
 	TimeBase  = int64(1600000000)
+	// block times carry nanoseconds, as Tendermint's do: every instant of the model is this far into its
+	// millisecond, so a time that the code truncates or rounds on the way is not the instant it was
+	TimeBaseNanos = int64(123456789)
 	NowOffset = int64(1000) // model time 1000 = TimeBase
 	// one unit of model time is 100 ms: block times, disabling times, promotion windows and the refund
 	// delay are not aligned to whole seconds
@@ -202,13 +205,13 @@ func modelTime(t time.Time) int64 {
 	if t.IsZero() || t.Unix() < TimeBase-NowOffset {
 		return 0
 	}
-	return int64(t.Sub(time.Unix(TimeBase, 0))/TimeUnit) + NowOffset
+	return int64(t.Sub(time.Unix(TimeBase, TimeBaseNanos))/TimeUnit) + NowOffset
 }
 
 func secs(n int64) time.Duration { return time.Duration(n) * TimeUnit }
 
 func realTime(m int64) time.Time {
-	return time.Unix(TimeBase, 0).Add(time.Duration(m-NowOffset) * TimeUnit).UTC()
+	return time.Unix(TimeBase, TimeBaseNanos).Add(time.Duration(m-NowOffset) * TimeUnit).UTC()
 }
 
 var registeredApps = 0
